@@ -16,6 +16,12 @@ from pegrun import *
 
 SLICES_QUICK = [("core", 4, 3, 3), ("ws", 8, 2, 3), ("stack", 4, 3, 4), ("counted", 2, 3, 4), ("builtin", 4, 3, 3),
                 ("skip", 8, 3, 3), ("factor", 4, 1, 4), ("restore", 6, 1, 4), ("pushws", 1, 1, 4)]
+# the same slices read with the grammar-extras feature on (native one-or-more, PUSH_LITERAL, tags), plus the
+# slice that exists only there; replayed on a harness built with --features extras
+XSLICES_QUICK = [("xtag", 4, 3, 3), ("xcore", 2, 3, 3), ("xws", 4, 2, 3), ("xcounted", 2, 3, 4), ("xstack", 2, 3, 4),
+                 ("xrestore", 3, 1, 4), ("xpushws", 1, 1, 4), ("xfactor", 2, 1, 4)]
+XSLICES_THOROUGH = [("xtag", 12, 4, 4), ("xcore", 12, 4, 4), ("xws", 12, 3, 3), ("xcounted", 8, 4, 4), ("xstack", 12, 4, 4),
+                    ("xrestore", 8, 1, 5), ("xpushws", 2, 1, 5), ("xfactor", 8, 1, 5)]
 SLICES_THOROUGH = [("core", 12, 4, 4), ("ws", 12, 3, 3), ("stack", 12, 4, 4), ("counted", 8, 4, 4), ("builtin", 12, 4, 3),
                    ("skip", 12, 4, 4), ("factor", 8, 1, 5), ("restore", 8, 1, 5), ("pushws", 2, 1, 5)]
 
@@ -25,9 +31,16 @@ def classify(m):
     return {"cause": m.get("cause", "unknown")}
 
 
-def run(ctx, variant="default"):
+def run(ctx):
     quick = ctx.tier == "quick"
     vh = cargo_build()
+    vhx = cargo_build(features="extras", variant="extras")
+    _run(ctx, vh, "default", SLICES_QUICK if quick else SLICES_THOROUGH, 8 if quick else 48, 250 if quick else 500)
+    _run(ctx, vhx, "grammar-extras", XSLICES_QUICK if quick else XSLICES_THOROUGH, 4 if quick else 24, 250 if quick else 500)
+
+
+def _run(ctx, vh, label, slices, nb, per):
+    quick = ctx.tier == "quick"
     ctx.cov["rule"] = ("(1) every grammar of the slices core/ws/stack/counted/builtin of MC_PegGen (all expression trees "
                        "up to the slice's size over its leaves/operators x modifiers x WHITESPACE/COMMENT variants) x every "
                        "input over the slice's alphabet up to its length bound; (2) seeded random grammars x random inputs. "
@@ -35,13 +48,13 @@ def run(ctx, variant="default"):
                        "(grammar text, start rule, input) triples.")
     # ---- spec -> impl
     total_cases = 0
-    for (name, shards, size, length) in (SLICES_QUICK if quick else SLICES_THOROUGH):
+    for (name, shards, size, length) in slices:
         cases, rs, n = gen_slice(ctx, name, shards, size, length, jobs=12)
         for r in rs:
             ctx.cov["states"] += r.distinct
             ctx.cov["transitions"] += r.generated
         rep = run_json([vh, "c01-replay", "--cases", cases], timeout=3000)
-        ctx.cov["engines"].append({"name": "MC_PegGen slice %s (size<=%d, inputs<=%d)" % (name, size, length),
+        ctx.cov["engines"].append({"name": "MC_PegGen slice %s (size<=%d, inputs<=%d; %s)" % (name, size, length, label),
                                    "role": "behaviour generation + replay on real front-end/VM",
                                    "grammars_enumerated": n, "grammars_accepted_by_pest": rep["grammars"],
                                    "rejected_by_validator": rep["rejected_by_validator"], "cases_replayed": rep["cases"],
@@ -52,7 +65,7 @@ def run(ctx, variant="default"):
         if rep.get("sample"):
             ctx.sample({"kind": "TLC-generated case replayed on the real VM", "slice": name, **rep["sample"]}, cap=3)
         for m in rep["mismatches"]:
-            d = {"kind": "replay", "spec": "PegSemantics(EvalDoc)", "slice": name}
+            d = {"kind": "replay", "spec": "PegSemantics(EvalDoc)", "slice": name, "features": label}
             d.update(m)
             d.update(classify(m))
             ctx.violation(d)
@@ -62,12 +75,10 @@ def run(ctx, variant="default"):
     ctx.cov["exhaustive"] = True
     ctx.cov["exhaustive_scope"] = "each MC_PegGen slice: all grammars of the slice x all inputs up to the length bound"
     # ---- impl -> spec
-    nb = 8 if quick else 48
-    per = 250 if quick else 500
     batches = []
     summaries = []
     for i in range(nb):
-        out = os.path.join(ctx.work, "rec%d.ndjson" % i)
+        out = os.path.join(ctx.work, "rec%s%d.ndjson" % (label[0], i))
         summaries.append(run_json([vh, "c01-emit", "--seed", str(ctx.seed * 100 + i), "--grammars", str(per), "--inputs", "30",
                                    "--out", out], timeout=3000))
         batches.append(out)
@@ -86,7 +97,7 @@ def run(ctx, variant="default"):
             if recs is None:
                 recs = {x["id"]: x for x in read_ndjson(path)}
             rec = recs.get(gid, {})
-            d = {"kind": "trace", "spec": "Trace_Peg/PegSemantics(EvalDoc)", "grammar": rec.get("text"),
+            d = {"kind": "trace", "spec": "Trace_Peg/PegSemantics(EvalDoc)", "features": label, "grammar": rec.get("text"),
                  "start": obj.get("start"), "inp": obj.get("inp"),
                  "input": "".join(chr(c) for c in obj.get("inp", [])),
                  "expected": obj.get("expected"), "observed": obj.get("got")}
@@ -99,7 +110,7 @@ def run(ctx, variant="default"):
     ctx.cov["traces_validated_against_impl"] += tot["cases"] - skipped
     ctx.cov["evaluations"] += tot["cases"] - skipped
     ctx.cov["distinct_nontrivial"] += tot["grammars"]
-    ctx.cov["engines"].append({"name": "Trace_Peg", "role": "recorded real parses re-evaluated by TLC with EvalDoc",
+    ctx.cov["engines"].append({"name": "Trace_Peg (%s)" % label, "role": "recorded real parses re-evaluated by TLC with EvalDoc",
                                "random_grammars": tot["grammars"], "recorded_parses": tot["cases"],
                                "not_compared_divergent_or_fuel": skipped,
                                "dropped_call_limit_or_deep": tot["dropped_call_limit"],
@@ -108,14 +119,17 @@ def run(ctx, variant="default"):
     ctx.sample({"kind": "recorded real parse validated by TLC", "grammar": first["text"], "case": first["cases"][min(3, len(first["cases"]) - 1)]})
     for b in batches:
         os.remove(b)
-    ctx.assumptions += ["Unicode property rules are an uninterpreted predicate table taken from pest::unicode for the run's alphabet (C16 checks the tables)",
+    if label != "default":
+        return
+    ctx.assumptions += ["node tags (grammar-extras) are not compared: they are outside what the property states",
+                        "Unicode property rules are an uninterpreted predicate table taken from pest::unicode for the run's alphabet (C16 checks the tables)",
                         "parses that reach the harness's call limit of 20000 or need more than 3000 counted calls are dropped, not compared",
                         "grammars the real validator rejects are skipped; grammars whose evaluation diverges in the model are not compared (C06)"]
 
 
 def replay(ctx, path):
-    vh = cargo_build()
     body = json.load(open(path))
+    vh = cargo_build(features="extras", variant="extras") if body.get("features") == "grammar-extras" else cargo_build()
     g = body.get("grammar")
     rec = {"text": g, "cases": [{"start": body["start"], "inp": body["inp"], "exp": body["expected"]}]}
     f = os.path.join(ctx.work, "case.json")
